@@ -23,6 +23,7 @@
 #include <algorithm>
 #include <iostream>
 #include <chrono>
+#include <tbox/base/verif_point.h>
 
 namespace tbox {
 namespace log {
@@ -52,6 +53,7 @@ void AsyncSink::onDisable()
 void AsyncSink::onLogFrontEnd(const LogContent *content)
 {
     async_pipe_.append(content, sizeof(LogContent));
+    TBOX_VERIF_POINT("AsyncSink.between_appends");
     if (content->text_len != 0)
         async_pipe_.append(content->text_ptr, content->text_len);
 }
